@@ -100,21 +100,20 @@ Definition goja_define (ext : bool) (existing : option ival) (d : pdesc) : optio
   | Some ex =>
       if isSome (d_val d) && is_true (d_wr d) && is_true (d_en d) && is_true (d_cf d)
       then Some (IPlain (dflt (d_val d) vundef)) else
-      (* flags, then value *)
-      let p := mkVP (dflt (d_val d) (vp_value ex)) (dflt (d_wr d) (vp_w ex)) (dflt (d_en d) (vp_e ex))
-                    (dflt (d_cf d) (vp_c ex)) (vp_acc ex) (vp_get ex) (vp_set ex) in
-      (* data fields present: accessor -> data drops [[Get]]/[[Set]], [[Writable]] defaults to false (4561dbf) *)
-      let p := if isSome (d_val d) || isSome (d_wr d)
-               then mkVP (vp_value p) (if vp_acc p && negb (isSome (d_wr d)) then false else vp_w p) (vp_e p) (vp_c p)
-                         false None None
-               else p in
-      (* accessor fields present: data -> accessor drops [[Value]]/[[Writable]] *)
-      let p := if isSome (d_get d) || isSome (d_set d)
-               then mkVP vundef false (vp_e p) (vp_c p) true (vp_get p) (vp_set p) else p in
-      let p := match d_get d with Some _ => mkVP (vp_value p) (vp_w p) (vp_e p) (vp_c p) (vp_acc p) getterObj (vp_set p)
-                                | None => p end in
-      let p := match d_set d with Some _ => mkVP (vp_value p) (vp_w p) (vp_e p) (vp_c p) (vp_acc p) (vp_get p) setterObj
-                                | None => p end in
+      (* object.go:710-752 updates the record field by field; written here per field (same result, also for a
+         descriptor carrying both kinds of fields):
+         [data] = Value or Writable present: accessor -> data drops [[Get]]/[[Set]], [[Writable]] defaults to false;
+         [accd] = Get or Set present (applied after): data -> accessor drops [[Value]]/[[Writable]]   (4561dbf) *)
+      let data := isSome (d_val d) || isSome (d_wr d) in
+      let accd := isSome (d_get d) || isSome (d_set d) in
+      let p := mkVP
+        (if accd then vundef else dflt (d_val d) (vp_value ex))
+        (if accd then false else if data && vp_acc ex && negb (isSome (d_wr d)) then false else dflt (d_wr d) (vp_w ex))
+        (dflt (d_en d) (vp_e ex))
+        (dflt (d_cf d) (vp_c ex))
+        (if accd then true else if data then false else vp_acc ex)
+        (match d_get d with Some _ => getterObj | None => if data then None else vp_get ex end)
+        (match d_set d with Some _ => setterObj | None => if data then None else vp_set ex end) in
       Some (IProp p)
   end.
 
